@@ -53,7 +53,8 @@ ensures(c, "lit_is_immediate", lambda ins, result: And(
         Implies(IsInstance(ins, "Int"), lambda: And(result[0], Eq(result[1], _imm_value(ins, "Int")))),
         Implies(IsInstance(ins, "PushInt"), lambda: And(result[0], Eq(result[1], _imm_value(ins, "PushInt"))))),
         note="for int / pushint the reported value is the immediate as written (number or name)")
-ensures(c, "push_class", lambda ins, result: Implies(result[0], IsInstance(ins, ("Int", "PushInt", "IntcInstruction"))))
+ensures(c, "push_class", lambda ins, result: Iff(result[0], IsInstance(ins, ("Int", "PushInt", "IntcInstruction"))),
+        note="exactly the literal-pushing opcodes (int, pushint, intc*) are reported as pushing an integer, whether or not the value is known")
 ensures(c, "lit_exact", lambda ins, result: Iff(has_int_lit(ins), And(result[0], IsInt(result[1]))))
 ensures(c, "none_iff", lambda result: Implies(Not(result[0]), IsNone(result[1])))
 
